@@ -206,6 +206,37 @@ def replay(rec: dict) -> bool:
     return False
 
 
+def slot_oracle(ctx: Ctx, rng: Rng, n: int) -> int:
+    """Implementation-side oracle for slot assignment (C09_slot_padding / C09_slot_assignment): build real HostObservations from
+    generated configs and check that slot i is configured component i, extra slots are padding (where=None), surplus is truncated."""
+    bad = 0
+    for k in range(n):
+        rig.set_capture(False)
+        obj, facts = rig.gen_object(rng, defects=False)
+        nodes_cfg = facts["cfg"]["options"]["components"][0]["options"]
+        for hc, host in zip(nodes_cfg["hosts"], obj.components["NODES"].hosts):
+            for kind, attr, key, num in (("services", "services", "service_name", "num_services"), ("applications", "applications", "application_name", "num_applications"),
+                                         ("folders", "folders", "folder_name", "num_folders")):
+                names = [c[key] for c in hc.get(kind, [])]
+                want = (names + [None] * max(0, nodes_cfg[num] - len(names)))[:nodes_cfg[num]]
+                got = [(list(x.where)[-1] if x.where is not None else None) for x in getattr(host, attr)]
+                ctx.count("slots:" + kind)
+                if got != want:
+                    bad += 1
+                    ctx.violation({"kind": "slot-assignment", "class": "HostObservation", "slot_kind": kind},
+                                  f"slot list of {kind} is {got}, configuration says {want}", {"cfg": facts["cfg"], "host": hc})
+            nn = nodes_cfg["num_nics"]
+            nics = [c["nic_num"] for c in hc.get("network_interfaces", [])]
+            want = (nics + list(range(1, nn + 1)))[:nn] if len(nics) < nn else nics[:nn]
+            got = [list(x.where)[-1] for x in host.nics]
+            ctx.count("slots:nics")
+            if got != want:
+                bad += 1
+                ctx.violation({"kind": "slot-assignment", "class": "HostObservation", "slot_kind": "nics"},
+                              f"NIC slots are {got}, configuration says {want}", {"cfg": facts["cfg"], "host": hc})
+    return bad
+
+
 def run(ctx: Ctx):
     with lean_lock():
         ctx.extract(x_enums.GEN_NAME, x_enums.emit)
@@ -223,16 +254,18 @@ def run(ctx: Ctx):
         if not r["ok"]:
             ctx.violation(dict(rec["sig"], property_oracle="observation == ground truth"), f"corpus {f.name}: {rec['what']} ({r['bad']})",
                           dict(rec, corpus=f.name, result=r))
+    bad = slot_oracle(ctx, ctx.rng.fork("slots"), ctx.scale(150, 2000))
+    ctx.oblige("oracle: slot i reads configured component i, padding is where=None, surplus truncated", "correspondence", bad == 0, f"{bad} slot lists differ")
     rng = ctx.rng.fork("obs-truth")
     runs = []
     scen = rig.SCENARIOS if ctx.thorough else rig.SCENARIOS[:7]
     t0 = time.time()
     for rel in scen:
         base = rig.load_cfg(rel)
-        variants = [base] + [rig.mutate_cfg(base, rng) for _ in range(ctx.scale(2, 6))]
+        variants = [base] + [rig.mutate_cfg(base, rng) for _ in range(ctx.scale(2, 4))]
         for vi, cfg in enumerate(variants):
             try:
-                res = c02.env_trajectory(ctx, rel, cfg, rng, episodes=ctx.scale(2, 3), steps=ctx.scale(30, 120), want_truth=True,
+                res = c02.env_trajectory(ctx, rel, cfg, rng, episodes=ctx.scale(2, 3), steps=ctx.scale(30, 100), want_truth=True,
                                          chaos=chaos if vi > 0 else None)
             except Exception as e:  # noqa: BLE001
                 import traceback
